@@ -341,6 +341,10 @@ def _cached_build_cp_atom_payload(cache, sequence, restrict, payload_form=False)
     return val
 
 
+def _resets(neg):
+    return any(x == "*" or x.endswith("_*") for x in neg)
+
+
 def _build_cp_atom_payload(sequence, restrict, payload_form=False, interner=None):
     locked = {}
     ldefault = locked.setdefault
@@ -360,6 +364,20 @@ def _build_cp_atom_payload(sequence, restrict, payload_form=False, interner=None
         if not i:
             return ()
         return (f(i[0].key, i[0].neg, i[0].pos),)
+
+    if any(_resets(data.neg) for data in i):
+        # -* / -PREFIX_* clear whatever preceded them: nothing may be reordered across
+        # such a chunk, so keep it verbatim and collapse the runs in between.
+        out, run = [], []
+        for data in i:
+            if _resets(data.neg):
+                out.extend(_build_cp_atom_payload(run, restrict, payload_form, interner))
+                out.append(f(data.key, data.neg, data.pos))
+                run = []
+            else:
+                run.append(data)
+        out.extend(_build_cp_atom_payload(run, restrict, payload_form, interner))
+        return tuple(out)
 
     i = reversed(i)
 
